@@ -241,6 +241,28 @@ Fixpoint apply_patches (e : enc) (ps : list patch) (v : view) : option view :=
   | p :: rest => match apply_patch e v p with Some v' => apply_patches e rest v' | None => None end
   end.
 
+(* ---- reading a view along a path of props (for the frame statements): the entry (value and
+   conflict flag) reached; the root counts as an unflagged entry ---- *)
+Fixpoint subentry (en : view * bool) (q : list prop) : option (view * bool) :=
+  match q with
+  | [] => Some en
+  | PMap k :: r =>
+    match fst en with
+    | VMap _ m => match mlookup k m with Some en' => subentry en' r | None => None end
+    | _ => None
+    end
+  | PSeq i :: r =>
+    match fst en with
+    | VList _ l => match get_at i l with Some en' => subentry en' r | None => None end
+    | _ => None
+    end
+  end.
+Definition subtree (v : view) (q : list prop) : option (view * bool) := subentry (v, false) q.
+
+(* q leaves the path at some step: a common prefix, then two different props *)
+Definition diverges (q path : list prop) : Prop :=
+  exists pre a b q' path', q = pre ++ a :: q' /\ path = pre ++ b :: path' /\ a <> b.
+
 (* ---- the model-level generator ---- *)
 Definition pv_of (v : view) : pvalue :=
   match v with
